@@ -3,7 +3,7 @@
    unit, sumbool -> native OCaml types); N, positive, Z, nat stay the extracted
    inductive datatypes; no Extract Constant. *)
 From Coq Require Import Extraction ExtrOcamlBasic NArith List.
-From AV Require Import Generated.Table Spec.Utf8 Spec.Vt Spec.Strip Model.Base Model.Utf8parse Model.Parser Model.Strip.
+From AV Require Import Generated.Table Spec.Utf8 Spec.Vt Spec.Strip Model.Base Model.Utf8parse Model.Parser Model.Strip Spec.Sgr Model.Wincon.
 
 Extraction Language OCaml.
 
@@ -13,4 +13,5 @@ Extraction "../ocaml/gen/extracted.ml"
   Spec.Vt.vt_step Spec.Vt.vt_init
   Spec.Strip.spec_strip Spec.Strip.strip_step Spec.Strip.s_init Spec.Utf8.valid_utf8
   Model.Strip.strip_bytes_pieces Model.Strip.strip_str_pieces Model.Strip.strip_bytes_chunks Model.Strip.strip_str_chunks
-  Model.Utf8parse.u8_new.
+  Model.Utf8parse.u8_new
+  Spec.Sgr.spec_runs Spec.Sgr.sgr_apply Model.Wincon.extract_chunks Model.Wincon.merge_runs Model.Wincon.capture_default Model.Wincon.sgr_dispatch.
